@@ -154,6 +154,28 @@ add("C42", "vh-sched", True, "exploration",
     "add => OutOfSpace iff full; ids strictly increasing and never reused; after every writer op (sequential) and at the end (concurrent) writer-side exists == every reader's exists == model for all ids plus one never issued; every set a reader observes is one the writer produced.",
     'Trusts shuttle and the harness futex/shm models; sequentially consistent interleavings at atomic/futex/mutex granularity only (no weak-memory reorderings; plain-memory races between scheduling points invisible); schedules sampled, not enumerated; liveness only as no-deadlock within the step bound (> 1% cut-offs => inconclusive); Miri tier not implemented.')
 
+
+add("C25", "vh-robust", True, "exploration",
+    "structure-aware property testing of hand-built and mutated-compiled bytecode with scripted I/O, catch_unwind oracle and a child-process allocation probe (proptest)",
+    "Generated machines over every instruction kind with arbitrary operands, targets, stacks, contexts, definitions, code maps and scripted I/O results, and compiled modules with 0-3 edits, are stepped with a 10 000-step bound and re-run through RunState::run; any host panic (or process abort in the probe) is a violation.",
+    "Acyclic struct definitions assumed; reaching a bound counts as pass; native-stack and memory exhaustion not observed; mid-range MStructSet operands only via the child probe.")
+add("C26", "vh-robust", True, "exploration",
+    "round-trip + differential property testing against an independent postcard reference encoder, with exhaustive targeted corruption per encoding (proptest)",
+    "Generated acyclic schemas and conforming values: serialize equals a reference encoding, the round trip is exact, and every truncation, trailing byte, bad option/result tag, out-of-definition enum value, NUL or invalid-UTF-8 text and wrong-length id is rejected; arbitrary and edited byte strings never panic and whatever they yield conforms to the schema.",
+    "Trusts the harness reference encoder and conformance checker; canonicality of accepted bytes is not asserted (the statement does not claim it).")
+add("C27", "vh-robust", True, "exploration",
+    "grammar-based and mutation-based in-process fuzzing (grammar sampler, scope- and type-aware sampler, repository corpus mutation, markdown wrappers) with a catch_unwind oracle (proptest)",
+    "Every generated text is fed to parse_policy_document, parse_policy_str (V1, V2) and parse_expression, and every AST obtained is compiled under four option sets; any panic in parsing or compiling is a violation; four listed findings (three inside the markdown dependency, one compiler Bug on an arm-less match over never) are tolerated by exact signature.",
+    "Profile has debug assertions and overflow checks on; nesting depth bounded (stack exhaustion not examined); panics while *rendering* a returned error are recorded as labels only (outside the statement).")
+add("C31", "vh-robust", True, "exploration",
+    "differential testing of the built policy-compiler binary against in-process library verdicts over generated documents of known class (proptest + process spawn)",
+    "Generated documents (parse error, compile error, compiles-but-fails-validation, valid; wrappers and flag combinations): exit status and output-file presence must equal parse and compile and (no-validate or validation passes); a written module must decode.",
+    "Expected verdict uses the tracer API with the same analyzers as validate(); the binary is built by the check from the repository working tree (dev profile).")
+add("C32", "vh-robust", True, "exploration",
+    "model-based property testing of every constructor and decoder with cross-representation Eq/Ord/Hash comparison and archive mutation (proptest)",
+    "Every string or buffer goes through 12 construction routes and all byte and archive decoders (serde json/postcard/cbor, rkyv access and deserialize on arbitrary and mutated archives, concatenation, lengths around the inline/heap boundary); acceptance must equal the invariant predicates written from the statement; content and Eq/Ord/Hash must agree across static, inline and heap values and with str.",
+    "Hostile archives are produced by archiving a plain String (same layout); std's DefaultHasher stands for any hasher.")
+
 # not built yet: crate assignment only
 add("C01", "vh-rt", True, "exploration",
     'metamorphic + model-based property testing (proptest worlds, k delivery scripts, reference braid model)',
